@@ -83,7 +83,7 @@ def draw_x(rng, fname):
             if abs(math.sin(x)) > 0.15:
                 return x
     if fname in ('tanh', 'coth', 'sech', 'csch') and u < 0.04:
-        return float(rng.choice([-1, 1]) * rng.uniform(360, 700))     # real function finite (+-1 or 0) there
+        return float(rng.choice([-1, 1]) * rng.uniform(360, 1000))    # real function finite (+-1 or 0) there
     if fname in ('coth', 'csch'):
         return float(rng.choice([-1, 1]) * rng.uniform(0.2, 5))
     if fname in ('exp', 'exp2', 'sinh', 'cosh', 'tanh', 'sech'):
